@@ -149,6 +149,18 @@ func (ev *evaluator) eval(fr *evalFrame, v ssa.Value, depth int) (interface{}, b
 		return x, true
 	}
 	switch x := v.(type) {
+	case *ssa.FreeVar:
+		// a value captured by value (the receiver of a bound method x.M): what the closure was made with
+		if fr.call != nil && fr.parent != nil {
+			if mc, ok := fr.call.Common().Value.(*ssa.MakeClosure); ok {
+				for i, fv := range fr.fn.FreeVars {
+					if fv == x && i < len(mc.Bindings) {
+						return ev.eval(fr.parent, mc.Bindings[i], depth+1)
+					}
+				}
+			}
+		}
+		return nil, false
 	case *ssa.Parameter:
 		if fr.parent != nil && fr.call != nil {
 			for i, q := range fr.fn.Params {
@@ -490,6 +502,23 @@ func (ev *evaluator) eval(fr *evalFrame, v ssa.Value, depth int) (interface{}, b
 				return nil, false
 			}
 			return fmt.Sprintf("%d", k), true
+		case "strings.Contains", "strings.Index", "strings.HasPrefix", "strings.HasSuffix":
+			a, ok1 := ev.eval(fr, x.Common().Args[0], depth+1)
+			b, ok2 := ev.eval(fr, x.Common().Args[1], depth+1)
+			as, isA := a.(string)
+			bs, isB := b.(string)
+			if !ok1 || !ok2 || !isA || !isB {
+				return nil, false
+			}
+			switch callee.Name() {
+			case "Contains":
+				return strings.Contains(as, bs), true
+			case "Index":
+				return int64(strings.Index(as, bs)), true
+			case "HasPrefix":
+				return strings.HasPrefix(as, bs), true
+			}
+			return strings.HasSuffix(as, bs), true
 		case "strings.Compare":
 			a, ok1 := ev.eval(fr, x.Common().Args[0], depth+1)
 			b, ok2 := ev.eval(fr, x.Common().Args[1], depth+1)
